@@ -613,6 +613,18 @@ class GridMachine(BaseCheck):
                     hi = None
                 if wi != hi:
                     return 'member', {'why': 'index differs', 'want': wi, 'got': hi}
+                if n:
+                    st = orng.choice([1, -1, n // 2])
+                    try:
+                        wi2 = model.index(row, st)
+                    except ValueError:
+                        wi2 = None
+                    try:
+                        hi2 = g.index(row, st)
+                    except ValueError:
+                        hi2 = None
+                    if wi2 != hi2:
+                        return 'member', {'why': 'index(row, start) differs', 'start': st, 'want': wi2, 'got': hi2}
             for bad in (5, 'row', None):
                 if bad in g:
                     return 'member', {'why': 'non-row reported present'}
